@@ -168,3 +168,230 @@ def session_anomalies(case, out):
     if out.get('follow_same') not in ('ok',):
         res.append(('following-session-same-thread-%s:%s' % (out.get('follow_same'), where), 'a following session in the same thread does not work: %s (%s, faults [%s] = %s)' % (out.get('follow_same'), tag, faults, where)))
     return res
+
+
+# ------------------------------------------------------------------------------------------------ case generation
+
+TEMPLATES = {
+    'opt': [
+        ('ro', [['select', False, 0]]),
+        ('write', [['select', False, 0], ['new', False, 5], ['rawwrite', False, 7]]),
+        ('commit-more', [['new', False, 5], ['commit', False, 0], ['select', False, 0], ['new', False, 6]]),
+        ('rollback-more', [['new', False, 5], ['flush', False, 0], ['rollback', False, 0], ['select', False, 0], ['new', False, 6]]),
+        ('catch', [['rawwrite', True, 5], ['new', True, 1], ['flush', True, 0], ['select', True, 0], ['commit', True, 0], ['rawwrite', True, 0]]),
+        ('forupd', [['forupd', False, 1], ['new', False, 2], ['qforupd', False, 3]]),
+        ('dbcommit', [['new', False, 1], ['dbcommit', True, 0], ['rawwrite', False, 2], ['dbrollback', True, 0], ['select', False, 0]]),
+        ('getconn', [['getconn', False, 0], ['new', False, 3]]),
+        ('raise', [['new', False, 5], ['flush', False, 0], ['raise', False, 0]]),
+    ],
+    'imm': [
+        ('write', [['select', False, 0], ['new', False, 5]]),
+        ('raise', [['new', False, 5], ['flush', False, 0], ['raise', False, 0]]),
+        ('catch', [['select', True, 0], ['rawwrite', True, 1], ['commit', True, 0], ['new', True, 2], ['rollback', True, 0], ['select', True, 0]]),
+    ],
+    'ser': [
+        ('forupd', [['forupd', False, 2], ['new', False, 5]]),
+        ('read', [['select', False, 0]]),
+        ('catch', [['select', True, 0], ['forupd', True, 1], ['commit', True, 0], ['rawwrite', True, 2]]),
+    ],
+    'ddl': [
+        ('ddl', [['ddlwrite', False, 1]]),
+        ('ddl-more', [['ddlwrite', True, 1], ['commit', True, 0], ['ddlwrite', True, 2], ['new', False, 1]]),
+        ('raise', [['ddlwrite', False, 1], ['raise', False, 0]]),
+    ],
+}
+
+
+def random_body(rng, shape, n):
+    ops, fu = [], 1
+    for _ in range(n):
+        r = rng.random()
+        catch = rng.random() < 0.5
+        if r < 0.18: ops.append(['select', catch, 0])
+        elif r < 0.36: ops.append(['new', catch, rng.randrange(1, 9)])
+        elif r < 0.46: ops.append(['flush', catch, 0])
+        elif r < 0.60: ops.append(['ddlwrite' if shape == 'ddl' else 'rawwrite', catch, rng.randrange(1, 9)])
+        elif r < 0.68: ops.append(['commit', catch, 0])
+        elif r < 0.75: ops.append(['rollback', catch, 0])
+        elif r < 0.80: ops.append(['dbcommit', catch, 0])
+        elif r < 0.84: ops.append(['dbrollback', catch, 0])
+        elif r < 0.92 and fu <= 6:
+            ops.append(['forupd' if rng.random() < 0.6 else 'qforupd', catch, fu]); fu += 1
+        elif r < 0.96: ops.append(['getconn', catch, 0])
+        else:
+            ops.append(['raise', catch, 0])
+            if not catch: break
+    return ops or [['select', False, 0]]
+
+
+def session_base_cases(ctx, deep=False):
+    """fault-free base cases: every template x start, plus seeded random bodies and two-session sequences."""
+    base = []
+    for shape, progs in TEMPLATES.items():
+        for name, ops in progs:
+            for start in ('pooled', 'none'):
+                base.append({'shape': shape, 'start': start, 'ops': ops, 'faults': [], 'name': '%s/%s' % (shape, name)})
+    nrand = ctx.scale(10, 60) if not deep else 80
+    for k in range(nrand):
+        shape = ctx.rng.choice(['opt', 'opt', 'imm', 'ser', 'ddl', 'nonopt'])
+        base.append({'shape': shape, 'start': ctx.rng.choice(['pooled', 'none']), 'ops': random_body(ctx.rng, shape, ctx.rng.randrange(1, 7)),
+                     'faults': [], 'name': 'random%d' % k})
+    for k in range(ctx.scale(6, 30)):
+        s1, s2 = ctx.rng.choice(['opt', 'imm', 'ser', 'ddl']), ctx.rng.choice(['opt', 'imm', 'ser', 'ddl'])
+        base.append({'shape': s1, 'start': ctx.rng.choice(['pooled', 'none']), 'ops': random_body(ctx.rng, s1, 3),
+                     'more': [[s2, random_body(ctx.rng, s2, 3)]], 'faults': [], 'name': 'seq%d' % k})
+    return base
+
+
+def session_fault_cases(ctx, base, outs, deep=False):
+    """every single fault index of every base case; pairs (k, j) with j after k; some seeded triples."""
+    cases = []
+    pair_budget = ctx.scale(6, 40) if not deep else 60
+    for c, o in zip(base, outs):
+        if 'harness_error' in o: continue
+        n = o['sessions'][-1]['calls']
+        for k in range(n):
+            cases.append(dict(c, faults=[k]))
+        pairs = [(k, j) for k in range(n) for j in range(k + 1, n + 3)]
+        if len(pairs) > pair_budget:
+            pairs = ctx.rng.sample(pairs, pair_budget)
+        for k, j in sorted(pairs):
+            cases.append(dict(c, faults=[k, j]))
+        for _ in range(ctx.scale(2, 10)):
+            cases.append(dict(c, faults=sorted(set(ctx.rng.randrange(0, n + 4) for _ in range(3)))))
+    return cases
+
+
+# ------------------------------------------------------------------------------------------------ threads
+
+THREAD_TEMPLATES = [
+    # (threads, steps, faults)
+    (3, [[0, 'enter', 'imm'], [1, 'enter', 'opt'], [2, 'enter', 'ser'], [0, 'rawwrite', 1], [1, 'select', 0], [1, 'new', 5], [1, 'flush', 0],
+         [2, 'forupd', 2], [1, 'select', 0], [0, 'exit', 0], [1, 'select', 0], [1, 'exit', 0], [2, 'rawupdate', 2], [2, 'exit', 0]], {}),
+    (2, [[0, 'enter', 'imm'], [1, 'enter', 'imm'], [0, 'select', 0], [1, 'select', 0], [0, 'exit_exc', 0], [1, 'exit', 0]], {'0': [3]}),
+    (2, [[0, 'enter', 'opt'], [1, 'enter', 'opt'], [0, 'forupd', 1], [1, 'rawupdate', 1], [0, 'rawupdate', 1], [0, 'exit', 0], [1, 'exit', 0]], {}),
+    (2, [[0, 'enter', 'ser'], [1, 'enter', 'opt'], [0, 'select', 0], [1, 'new', 3], [1, 'exit', 0], [0, 'exit_exc', 0], [1, 'enter', 'opt'], [1, 'select', 0], [1, 'exit', 0]], {}),
+    (2, [[0, 'enter', 'imm'], [1, 'enter', 'ddl'], [0, 'rawwrite', 1], [1, 'ddlwrite', 1], [0, 'exit', 0], [1, 'exit', 0]], {'0': [7]}),
+    (2, [[0, 'enter', 'imm'], [1, 'enter', 'imm'], [0, 'rawwrite', 1], [1, 'rawwrite', 2], [0, 'exit', 0], [1, 'exit', 0]], {'0': [7, 8]}),
+    (3, [[0, 'enter', 'imm'], [1, 'enter', 'imm'], [2, 'enter', 'imm'], [0, 'select', 0], [1, 'select', 0], [2, 'select', 0], [0, 'exit', 0], [1, 'exit_exc', 0], [2, 'exit', 0]], {}),
+]
+
+TH_OPS = ['select', 'new', 'flush', 'rawwrite', 'commit', 'rollback', 'forupd', 'rawupdate']
+
+
+def random_schedule(rng, nthreads, nsteps):
+    """a schedule in which every thread runs sessions back to back; all sessions are closed at the end."""
+    steps, inside, fu = [], {}, {}
+    for t in range(nthreads):
+        inside[t] = False; fu[t] = 1
+    for _ in range(nsteps):
+        t = rng.randrange(nthreads)
+        if not inside[t]:
+            steps.append([t, 'enter', rng.choice(['opt', 'opt', 'imm', 'ser'])]); inside[t] = True
+            continue
+        r = rng.random()
+        if r < 0.22:
+            steps.append([t, rng.choice(['exit', 'exit', 'exit_exc']), 0]); inside[t] = False; fu[t] = 1
+        else:
+            op = rng.choice(TH_OPS)
+            if op == 'forupd':
+                if fu[t] > 6: op = 'select'
+                else:
+                    steps.append([t, 'forupd', fu[t]]); fu[t] += 1
+                    continue
+            steps.append([t, op, rng.randrange(1, 7)])
+    for t in range(nthreads):
+        if inside[t]: steps.append([t, 'exit', 0])
+    # blocked threads skip steps: make sure everything gets closed by repeating the exits
+    for t in range(nthreads):
+        steps.append([t, 'exit_if_open', 0])
+    return steps
+
+
+def thread_cases(ctx, deep=False):
+    cases = [{'threads': n, 'steps': steps, 'faults': faults, 'name': 'template%d' % i} for i, (n, steps, faults) in enumerate(THREAD_TEMPLATES)]
+    for k in range(ctx.scale(25, 150) if not deep else 200):
+        n = ctx.rng.choice([2, 2, 3])
+        steps = random_schedule(ctx.rng, n, ctx.rng.randrange(8, 22))
+        faults = {}
+        if ctx.rng.random() < 0.6:
+            for t in range(n):
+                if ctx.rng.random() < 0.5:
+                    faults[str(t)] = sorted(set(ctx.rng.randrange(0, 16) for _ in range(ctx.rng.randrange(1, 3))))
+        cases.append({'threads': n, 'steps': steps, 'faults': faults, 'name': 'random%d' % k})
+    return cases
+
+
+def nat_fun(d, default, render):
+    """Coq `fun i => match i with 0 => .. | 1 => .. | _ => default end`"""
+    arms = ' '.join('| %d => %s' % (k, render(v)) for k, v in sorted(d.items()))
+    return '(fun i : nat => match i with %s | _ => %s end)' % (arms, default)
+
+
+THREAD_HEADER = HEADER + '''
+Definition event_eqb_nl (a b : event) : bool :=
+  call_eqb (e_call a) (e_call b) && (e_con a =? e_con b) && eqb (e_ok a) (e_ok b) && eqb (e_txn a) (e_txn b) &&
+  (if e_mine a then e_lock a && e_lock b else true).
+Definition ores_eqb (r : res) (o : option res) : bool := match o with None => negb (res_eqb r Blocked) | Some x => res_eqb r x end.
+Fixpoint grun_res (orc : nat -> nat -> bool) (g : gstate) (l : list (nat * action)) : list res * gstate :=
+  match l with
+  | [] => ([], g)
+  | (i, a) :: l' => let r := fst (tstep (orc i) a (set_lock (fst g) (snd g i))) in
+                    let (rs, g') := grun_res orc (gstep orc g (i, a)) l' in (r :: rs, g')
+  end.
+Definition thread_case (orc : nat -> nat -> bool) (sh : nat -> shape) (l : list (nat * action)) (expect : list (option res))
+                       (lock_after : bool) (traces : list (nat * list event)) : bool :=
+  let (rs, g) := grun_res orc (g_init sh) l in
+  list_eqb ores_eqb rs expect && eqb (fst g) lock_after &&
+  forallb (fun it => list_eqb event_eqb_nl (rev (trace (snd g (fst it)))) (snd it)) traces.
+'''
+
+
+def coq_thread_case(case, out):
+    """bool: the model's global run of the effective schedule gives the same blocked / outcome per step, the same final lock
+    state and the same driver-call trace per thread."""
+    eff = [e for e in out['effective'] if e[3] not in ('skipped', 'noop')]
+    first_shape, sched, expect = {}, [], []
+    # shape of the next session of each thread, looking forward from each exit
+    for idx, (t, op, arg, outcome, _lk) in enumerate(eff):
+        if op == 'enter':
+            if t not in first_shape: first_shape[t] = arg
+            continue
+        if op in ('exit', 'exit_exc', 'exit_if_open'):
+            nxt = 'opt'
+            for t2, op2, arg2, _o, _l in eff[idx + 1:]:
+                if t2 == t and op2 == 'enter':
+                    nxt = arg2; break
+            sched.append('(%d, AExit %s %s)' % (t, cb(op == 'exit_exc'), SHAPES[nxt]))
+            if outcome == 'blocked': expect.append('(Some Blocked)')
+            elif op == 'exit_exc': expect.append('None')
+            elif outcome in EXC: expect.append('(Some %s)' % EXC[outcome])
+            else: raise Unmodelled('outcome %r of exit' % outcome)
+        else:
+            sched.append('(%d, AOp %s)' % (t, OPS[op]))
+            if outcome == 'blocked': expect.append('(Some Blocked)')
+            elif outcome in EXC: expect.append('(Some %s)' % EXC[outcome])
+            else: raise Unmodelled('outcome %r of %s' % (outcome, op))
+    orc = nat_fun({int(t): v for t, v in case.get('faults', {}).items()}, 'faults_oracle []', lambda v: 'faults_oracle %s' % coq_faults(v))
+    sh = nat_fun(first_shape, 'ShOpt', lambda v: SHAPES[v])
+    traces = '[' + '; '.join('(%d, [%s])' % (int(t), '; '.join(coq_event(e) for e in evs)) for t, evs in sorted(out['traces'].items())) + ']'
+    return 'thread_case %s %s [%s] [%s] %s %s' % (orc, sh, '; '.join(sched), '; '.join(expect), cb(out['lock_after']), traces)
+
+
+def thread_anomalies(case, out):
+    """property oracle on one executed schedule (all sessions are closed at its end)."""
+    res = []
+    name = case.get('name', '?')
+    if out.get('failed'):
+        res.append(('thread-schedule-hangs', 'schedule %s did not finish: %s' % (name, out['failed'])))
+    if out['still_blocked']:
+        res.append(('thread-left-blocked', 'threads %s are still blocked on the provider lock after every session has ended (%s)' % (out['still_blocked'], name)))
+    if out['lock_after']:
+        res.append(('lock-left-held-threads', 'provider.transaction_lock is held after every session has ended (%s)' % name))
+    if out.get('prelock_after'):
+        res.append(('prelock-left-held-threads', 'provider.pre_transaction_lock is held after every session has ended (%s)' % name))
+    if out.get('threads_alive'):
+        res.append(('thread-alive', '%d worker threads did not terminate (%s)' % (out['threads_alive'], name)))
+    for k, n in out.get('closes', {}).items():
+        if n > 1: res.append(('connection-closed-twice-threads', 'connection %s closed %d times (%s)' % (k, n, name)))
+    return res
